@@ -10,6 +10,7 @@
    service transactions offered to the producer's pool, included responses, pending set), deliver (node stores its next
    block: digest), answer, sig (a signature reaches a node: from, to, req, hash = signed part it is for, "" = junk),
    tick (refresh of one request), restart, final (nothing).
+   FinishedForgotten: the block that finishes a request makes the node that stores it drop what it held for the request.
    Names of JUDGED predicates: LedgersAgree, BlockAccepted, FinishOnce.  Every other name is an observation beyond the
    statement of C01 (reported as "beyond:<name>" by the runner). *)
 EXTENDS TraceIO, FiniteSets, SequencesExt, TLC
@@ -26,8 +27,9 @@ VARIABLES l,
           flag,     \* <<node, req>> -> sent flag of the service
           sentH,    \* hashes (signed parts) any service sent
           sentBy,   \* <<node, req>> -> set of hashes this incarnation sent
-          fin       \* req -> number of response transactions on chain
-vars == <<l, F, D, R, nh, B, seen, got, early, flag, sentH, sentBy, fin>>
+          fin,      \* req -> number of response transactions on chain
+          finH      \* req -> height of the block that finished it
+vars == <<l, F, D, R, nh, B, seen, got, early, flag, sentH, sentBy, fin, finH>>
 
 M == INSTANCE OracleSvc
 
@@ -45,7 +47,7 @@ FactsAt(h) == F[h]
 Rq(id)     == R[id]
 
 Init == /\ l = 1 /\ F = Empty /\ D = Empty /\ R = Empty /\ nh = Empty /\ B = Empty /\ seen = {} /\ got = Empty
-        /\ early = Empty /\ flag = Empty /\ sentH = {} /\ sentBy = Empty /\ fin = Empty
+        /\ early = Empty /\ flag = Empty /\ sentH = {} /\ sentBy = Empty /\ fin = Empty /\ finH = Empty
 
 \* ------------------------------------------------------------------ what every event may carry
 BuiltOf(e) == IF "built" \in DOMAIN e THEN e.built ELSE <<>>
@@ -159,29 +161,31 @@ Step ==
               /\ F' = (e.facts.h :> NormF(e.facts)) /\ D' = (e.facts.h :> e.digest) /\ R' = Empty
               /\ nh' = [n \in 0..(e.n - 1) |-> e.facts.h]
               /\ B' = Empty /\ seen' = {} /\ got' = Empty /\ early' = Empty /\ flag' = Empty /\ sentH' = {} /\ sentBy' = Empty
-              /\ fin' = Empty
+              /\ fin' = Empty /\ finH' = Empty
          [] e.event = "mine" ->
               /\ F' = Put(F, e.facts.h, NormF(e.facts)) /\ D' = Put(D, e.facts.h, e.digest)
               /\ R' = [id \in (DOMAIN R) \cup {e.made[i].id : i \in DOMAIN e.made} |->
                           IF id \in DOMAIN R THEN R[id] ELSE e.made[CHOOSE i \in DOMAIN e.made : e.made[i].id = id]]
               /\ fin' = Fin2(e)
+              /\ finH' = [r \in (DOMAIN finH) \cup {e.included[x].req : x \in DOMAIN e.included} |-> IF r \in DOMAIN finH THEN finH[r] ELSE e.facts.h]
               /\ UNCHANGED nh
               /\ Service(e, nh, Got1(e), Early1(e), sentBy, IncludedChecks(e, Fin2(e)) \cup RelayChecks(e))
          [] e.event = "deliver" ->
               /\ nh' = Put(nh, e.node, e.h)
-              /\ UNCHANGED <<F, D, R, fin>>
+              /\ UNCHANGED <<F, D, R, fin, finH>>
               /\ Service(e, Put(nh, e.node, e.h), Got1(e), Early1(e), sentBy,
                          NameIf(e.stored, "BlockAccepted")
+                         \cup NameIf(\A r \in DOMAIN finH : finH[r] = e.h => M!FinishedForgotten(<<e.node, r>>, DOMAIN B2(e)), "FinishedForgotten")
                          \cup (IF e.stored /\ e.h \in DOMAIN D THEN NameIf(M!LedgersAgree(e.digest, D[e.h]), "LedgersAgree") ELSE {}))
          [] e.event = "sig" ->
-              /\ UNCHANGED <<F, D, R, nh, fin>>
+              /\ UNCHANGED <<F, D, R, nh, fin, finH>>
               /\ Service(e, nh, GotAfterSig(e), EarlyAfterSig(e), sentBy, {})
          [] e.event = "restart" ->
-              /\ UNCHANGED <<F, D, R, nh, fin>>
+              /\ UNCHANGED <<F, D, R, nh, fin, finH>>
               /\ Service(e, nh, Got1(e), Early1(e), Drop(sentBy, {k \in DOMAIN sentBy : k[1] = e.node}),
                          IF e.h \in DOMAIN D THEN NameIf(M!LedgersAgree(e.digest, D[e.h]), "LedgersAgree") ELSE {})
          [] OTHER ->      \* answer, tick, final
-              /\ UNCHANGED <<F, D, R, nh, fin>>
+              /\ UNCHANGED <<F, D, R, nh, fin, finH>>
               /\ Service(e, nh, Got1(e), Early1(e), sentBy, {})
 
 TraceSpec == Init /\ [][Step]_vars
